@@ -38,6 +38,9 @@ type FuncFacts struct {
 	// ErrExit lets a rule reclassify specific returns as error exits (frozen, triaged
 	// `if err != nil { return nil }` instances).
 	ErrExit map[ssa.Instruction]bool
+	// IdentityCalls: method names whose first result is treated as their receiver by the
+	// linear-form evaluation (e.g. TruncateDecimal for split conservation).
+	IdentityCalls map[string]bool
 }
 
 func (P *Program) Facts(fn *ssa.Function) *FuncFacts {
